@@ -249,6 +249,204 @@ GROUPS.append(("FnsBv.lean", ["Sds.Model.Iter", "Sds.Generated.FnsIdx"], [
 ]))
 
 
+PAIRS = ("N", "SamplePairs")
+STRUCTS["SamplePairs"] = dict(lean="(Array (Nat × Nat))", ctor=None, fields={}, fieldmap={})
+RLB_SELF = dict(lean="RLBuilder", var="b", rust="RLBuilder",
+                fields={"len": ("len", U), "ones": ("ones", U), "tail": ("tail", U), "run": ("run", ("T", [U, U])),
+                        "samples": ("samples", PAIRS), "data": ("data", IV)},
+                order=["len", "ones", "tail", "run", "samples", "data"])
+RLB_MUT = {
+    "self.len": dict(lean="self_len", ret=U, monadic=False),
+    "self.count_ones": dict(lean="self_ones", ret=U, monadic=False),
+    "self.tail": dict(lean="self_tail", ret=U, monadic=False),
+    "self.blocks": dict(lean="self_samples.size", ret=U, monadic=False),
+    "self.flush": dict(lean="gen_RLBuilder_flush m {self}", ret=UNIT, mutself=True),
+    "self.set_run_unchecked": dict(lean="gen_RLBuilder_set_run_unchecked m {self} {0} {1}", ret=UNIT, mutself=True, args=[U, U]),
+    "Self::code_len": dict(lean="gen_RLBuilder_code_len m {0}", ret=U),
+    "self.data.resize": dict(lean="IntVec.resize self_data {0} {1}", ret=UNIT, monadic=False, setvar="self_data", args=[U, W]),
+    "self.samples.push": dict(lean="self_samples.push {0}", ret=UNIT, monadic=False, setvar="self_samples", args=[("T", [U, U])]),
+    # `encode` is a `while` loop over the value: outside the translated subset, named here by its model function
+    "self.encode": dict(lean="RLBuilder.encode self_data {0}", ret=UNIT, monadic=False, setvar="self_data", args=[U]),
+}
+RLB_RO = {"self.len": dict(lean="b.len", ret=U, monadic=False), "self.count_ones": dict(lean="b.ones", ret=U, monadic=False)}
+CALLS["bits::bit_len"] = dict(lean="gen_bit_len m {0}", ret=U)
+
+
+def rlb(fn, mut):
+    return dict(file="rl_vector.rs", impl=r"impl RLBuilder\b", fn=fn, name="gen_RLBuilder_" + fn,
+                self=dict(RLB_SELF, mut=mut), calls=RLB_MUT if mut else RLB_RO)
+
+
+SPB_SELF = dict(lean="SparseBuilder", var="b", rust="SparseBuilder",
+                fields={"univ": ("univ", U), "low": ("low", IV), "high": ("high", RV), "len": ("len", U), "next": ("next", U),
+                        "increment": ("increment", U)},
+                order=["univ", "low", "high", "len", "next", "increment"])
+# the Rust builder keeps `data: SparseVector { len, high (unused until the end), low }`; the model flattens it to `univ`, `low`
+SPB_MUT = {
+    "self.len": dict(lean="self_len", ret=U, monadic=False),
+    "self.is_full": dict(lean="gen_SparseBuilder_is_full m {self}", ret=B),
+    "self.next_index": dict(lean="self_next", ret=U, monadic=False),
+    "self.universe": dict(lean="self_univ", ret=U, monadic=False),
+    "self.set_unchecked": dict(lean="gen_SparseBuilder_set_unchecked m {self} {0}", ret=UNIT, mutself=True, args=[U]),
+    "self.data.split": dict(lean="gen_SparseVector_split m (⟨self_univ, default, self_low⟩ : Sparse) {0}", ret=("N", "Parts")),
+    "self.high.set_bit": dict(lean="gen_RawVector_set_bit m self_high {0} {1}", ret=UNIT, setvar="self_high", args=[U, B]),
+    "self.data.low.set": dict(lean="gen_IntVector_set m self_low {0} {1}", ret=UNIT, setvar="self_low", args=[U, W]),
+}
+SPB_RO = {
+    "self.len": dict(lean="b.len", ret=U, monadic=False),
+    "self.capacity": dict(lean="gen_SparseBuilder_capacity m b", ret=U),
+    "self.data.count_ones": dict(lean="b.low.len", ret=U, monadic=False),
+    "self.data.len": dict(lean="b.univ", ret=U, monadic=False),
+}
+
+
+def spb(fn, mut):
+    return dict(file="sparse_vector.rs", impl=r"impl SparseBuilder\b", fn=fn, name="gen_SparseBuilder_" + fn,
+                self=dict(SPB_SELF, mut=mut), calls=SPB_MUT if mut else SPB_RO)
+
+
+SPARSE_CALLS = {"self.count_ones": dict(lean="Sparse.countOnes s", ret=U, monadic=False),
+                "self.pos": dict(lean="gen_SparseVector_pos m s {0}", ret=("N", "Pos")),
+                "self.combine": dict(lean="gen_SparseVector_combine m s {0}", ret=("T", [U, U]))}
+
+GROUPS.append(("FnsBuild.lean", ["Sds.Model.WM", "Sds.Model.RL", "Sds.Generated.FnsIdx"], [
+    rlb("count_zeros", False), rlb("code_len", False), rlb("flush", True), rlb("set_run_unchecked", True),
+    rlb("set_bit_unchecked", True), rlb("try_set", True), rlb("set_len", True),
+    spb("is_multiset", False), spb("capacity", False), spb("universe", False), spb("next_index", False),
+    spb("is_full", False), spb("is_empty", False), spb("set_unchecked", True), spb("try_set", True),
+    dict(file="sparse_vector.rs", impl=r"impl<'a> Select<'a> for SparseVector\b", fn="select", name="gen_SparseVector_select",
+         self=SPARSE_SELF, calls=SPARSE_CALLS),
+]))
+
+
+# ---- loaders: `fn load<T: io::Read>(reader: &mut T) -> io::Result<Self>`; the reader is the list of remaining elements
+SAMPLES_T = ("N", "SamplesVec")
+STRUCTS["SamplesVec"] = dict(lean="(Array (Word × Word))", ctor=None, fields={}, fieldmap={})
+STRUCTS["RawVector"] = dict(lean="RawVec", ctor=lambda v: "(⟨%s, %s⟩ : RawVec)" % (v["len"], v["data"]), fields={"len": U, "data": A}, fieldmap={})
+STRUCTS["IntVector"] = dict(lean="IntVec", ctor=lambda v: "(⟨%s, %s, %s⟩ : IntVec)" % (v["len"], v["width"], v["data"]),
+                            fields={"len": U, "width": U, "data": RV}, fieldmap={})
+STRUCTS["RankSupport"] = dict(lean="RankSup", ctor=lambda v: "(⟨%s⟩ : RankSup)" % v["samples"], fields={"samples": SAMPLES_T}, fieldmap={})
+STRUCTS["SelectSupport"] = dict(lean="SelSup", ctor=lambda v: "(⟨%s, %s, %s⟩ : SelSup)" % (v["samples"], v["long"], v["short"]),
+                                fields={"samples": IV, "long": IV, "short": IV, "_marker": "SKIP"}, fieldmap={})
+STRUCTS["BitVector"] = dict(lean="BitVector", ctor=lambda v: "({ ones := %s, data := %s, rank := %s, select := %s, selectZero := %s } : BitVector)"
+                            % (v["ones"], v["data"], v["rank"], v["select"], v["select_zero"]),
+                            fields={"data": RV, "ones": U, "rank": ("O", ("N", "RankSupport")), "select": ("O", ("N", "SelectI")),
+                                    "select_zero": ("O", ("N", "SelectC"))}, fieldmap={})
+STRUCTS["SparseVector"] = dict(lean="Sparse", ctor=lambda v: "(⟨%s, %s, %s⟩ : Sparse)" % (v["len"], v["high"], v["low"]),
+                               fields={"len": U, "high": BV, "low": IV}, fieldmap={})
+STRUCTS["WMCore"] = dict(lean="WMCore", ctor=None, fields={}, fieldmap={})
+STRUCTS["WaveletMatrix"] = dict(lean="WM", ctor=lambda v: "(⟨%s, %s, %s⟩ : WM)" % (v["len"], v["data"], v["first"]),
+                                fields={"len": U, "data": ("N", "WMCore"), "first": IV}, fieldmap={})
+LOADS = {
+    "usize::load": dict(lean="usizeC.load {0}", ret=U, load=True),
+    "<Vec<u64>asSerialize>::load": dict(lean="vecU64C.load {0}", ret=A, load=True),
+    "Vec::<(u64,u64)>::load": dict(lean="vecPairC.load {0}", ret=SAMPLES_T, load=True),
+    "RawVector::load": dict(lean="gen_RawVector_load m {0}", ret=RV, load=True),
+    "IntVector::load": dict(lean="gen_IntVector_load m {0}", ret=IV, load=True),
+    "BitVector::load": dict(lean="gen_BitVector_load m {0}", ret=BV, load=True),
+    # generic `impl Serialize for Option<V>` (length prefix, then `V::load`) and the loop of `WMCore::load` are outside
+    # the translated subset: named by their model codecs
+    "Option::<RankSupport>::load": dict(lean="(optionC rankSupC).load {0}", ret=("O", ("N", "RankSupport")), load=True),
+    "Option::<SelectSupport<Identity>>::load": dict(lean="(optionC selSupC).load {0}", ret=("O", ("N", "SelectI")), load=True),
+    "Option::<SelectSupport<Complement>>::load": dict(lean="(optionC selSupC).load {0}", ret=("O", ("N", "SelectC")), load=True),
+    "WMCore::load": dict(lean="wmCoreC.load {0}", ret=("N", "WMCore"), load=True),
+    "<RankSupport>.blocks": dict(lean="{0}.samples.size", ret=U, monadic=False),
+    "<SelectI>.superblocks": dict(lean="gen_SelectSupport_superblocks m {0}", ret=U),
+    "<SelectC>.superblocks": dict(lean="gen_SelectSupport_superblocks m {0}", ret=U),
+    "<SelectSupport>.superblocks": dict(lean="gen_SelectSupport_superblocks m {0}", ret=U),
+    "<SelectSupport>.long_superblocks": dict(lean="gen_SelectSupport_long_superblocks m {0}", ret=U),
+    "<SelectSupport>.short_superblocks": dict(lean="gen_SelectSupport_short_superblocks m {0}", ret=U),
+    "<BitVector>.enable_select": dict(lean="BitVector.enableSelect {0}", ret=UNIT, mutrecv=True),
+    "<BitVector>.enable_select_zero": dict(lean="BitVector.enableSelectZero {0}", ret=UNIT, mutrecv=True),
+    "SparseBuilder::get_buckets": dict(lean="gen_SparseBuilder_get_buckets m {0} {1}", ret=U),
+    "<WMCore>.len": dict(lean="WMCore.len {0}", ret=U),
+}
+SEL_SELF = dict(lean="SelSup", var="s", rust="SelectSupport", mut=False, order=[],
+                fields={"samples": ("samples", IV), "long": ("long", IV), "short": ("short", IV)})
+
+
+def loader(file, ty, impl, ret):
+    return dict(file=file, impl=impl, fn="load", name="gen_%s_load" % ty, reader="reader", ret=ret, calls=LOADS)
+
+
+GROUPS.append(("FnsLoad.lean", ["Sds.Model.WM", "Sds.Generated.FnsIdx"], [
+    dict(file="bit_vector/select_support.rs", impl=r"impl<T: Transformation> SelectSupport<T>", fn="superblocks",
+         name="gen_SelectSupport_superblocks", self=SEL_SELF),
+    dict(file="bit_vector/select_support.rs", impl=r"impl<T: Transformation> SelectSupport<T>", fn="long_superblocks",
+         name="gen_SelectSupport_long_superblocks", self=SEL_SELF),
+    dict(file="bit_vector/select_support.rs", impl=r"impl<T: Transformation> SelectSupport<T>", fn="short_superblocks",
+         name="gen_SelectSupport_short_superblocks", self=SEL_SELF),
+    loader("raw_vector.rs", "RawVector", r"impl Serialize for RawVector\b", RV),
+    loader("int_vector.rs", "IntVector", r"impl Serialize for IntVector\b", IV),
+    loader("bit_vector/rank_support.rs", "RankSupport", r"impl Serialize for RankSupport\b", ("N", "RankSupport")),
+    loader("bit_vector/select_support.rs", "SelectSupport", r"impl<T: Transformation> Serialize for SelectSupport<T>", ("N", "SelectSupport")),
+    loader("bit_vector.rs", "BitVector", r"impl Serialize for BitVector\b", BV),
+    loader("sparse_vector.rs", "SparseVector", r"impl Serialize for SparseVector\b", ("N", "SparseVector")),
+    loader("wavelet_matrix.rs", "WaveletMatrix", r"impl Serialize for WaveletMatrix\b", ("N", "WaveletMatrix")),
+]))
+
+
+# ---- functions with loops: every `while` / `loop` gets an explicit iteration bound (a Lean expression over the
+# parameters), chosen as the bound the hand-written model uses for the same loop
+SP_LOOP_CALLS = {
+    "self.split": dict(lean="gen_SparseVector_split m s {0}", ret=("N", "Parts")),
+    "self.lower_bound": dict(lean="gen_SparseVector_lower_bound m s {0}", ret=("N", "Pos")),
+    "self.upper_bound": dict(lean="gen_SparseVector_upper_bound m s {0}", ret=("N", "Pos")),
+    "self.len": dict(lean="s.len", ret=U, monadic=False),
+    "self.count_ones": dict(lean="Sparse.countOnes s", ret=U, monadic=False),
+    "self.is_empty": dict(lean="decide (s.len = 0)", ret=B, monadic=False),
+    "<BitVector>.get": dict(lean="BitVector.get {0} {1}", ret=B),
+    "cmp::min": dict(lean="min {0} {1}", ret=U, monadic=False, args=[U, U]),
+    "Self::OneIter::empty_iter": dict(lean="SpOneIter.emptyIter {0}", ret=("N", "SpOneIter"), monadic=False),
+}
+STRUCTS["SpOneIter"] = dict(lean="SpOneIter", ctor=None, fields={}, fieldmap={})
+SP_ITER_STRUCT = dict(lean="SpOneIter", ctor=lambda v: "(⟨%s, %s⟩ : SpOneIter)" % (v["next"], v["limit"]),
+                      fields={"parent": "SKIP", "next": ("N", "Pos"), "limit": ("N", "Pos")}, fieldmap={})
+
+
+def sp_loop(fn, impl, fuel, structs_over=None):
+    d = dict(file="sparse_vector.rs", impl=impl, fn=fn, name="gen_SparseVector_" + fn, self=dict(SPARSE_SELF, rust="SparseVector"),
+             calls=SP_LOOP_CALLS, fuel=fuel, tyalias={"Self::OneIter": ("N", "SpOneIter")})
+    if structs_over:
+        d["structs_over"] = structs_over
+    return d
+
+
+GROUPS.append(("FnsLoop.lean", ["Sds.Model.WM", "Sds.Generated.FnsIdx"], [
+    sp_loop("count_zeros", r"impl<'a> BitVec<'a> for SparseVector\b", []),
+    sp_loop("get", r"impl<'a> BitVec<'a> for SparseVector\b", ["s.high.len + 1"]),
+    sp_loop("rank", r"impl<'a> Rank<'a> for SparseVector\b", ["s.high.len + 1"]),
+    sp_loop("predecessor", r"impl<'a> PredSucc<'a> for SparseVector\b", ["s.high.len + 1", "s.high.len + 1"], {"OneIter": SP_ITER_STRUCT}),
+    sp_loop("successor", r"impl<'a> PredSucc<'a> for SparseVector\b", ["s.high.len + 1", "s.high.len + 1"], {"OneIter": SP_ITER_STRUCT}),
+]))
+
+
+SELU_CALLS = {"T::word_unchecked": dict(lean="wordT tr {0} {1}", ret=W),
+              "bits::select": dict(lean="selWord {0} {1}", ret=U, args=[W, U])}
+GROUPS[-1][2].append(dict(file="bit_vector/select_support.rs", impl=r"impl<T: Transformation> SelectSupport<T>", fn="select_unchecked",
+                          name="gen_SelectSupport_select_unchecked", self=SEL_SELF, calls=SELU_CALLS, binders=["(tr : Tr)"],
+                          params={"parent": ("(parent : RawVec)", ("N", "ParentRaw"), "parent")}, fuel=["parent.data.size + 1"]))
+
+
+ONE_SELF = dict(lean="OneIterSt", var="it", rust="OneIter", mut=True, order=["next", "limit"],
+                fields={"next": ("next", ("T", [U, U])), "limit": ("limit", ("T", [U, U]))})
+ONE_CALLS = {"T::word_unchecked": dict(lean="wordT tr parent {1}", ret=W, ignore_args=(0,)),
+             "bits::select": dict(lean="selWord {0} {1}", ret=U, args=[W, U])}
+
+
+def one_iter(fn, impl, fuel, mut=True):
+    return dict(file="bit_vector.rs", impl=impl, fn=fn, name="gen_OneIter_" + fn, self=dict(ONE_SELF, mut=mut), calls=ONE_CALLS,
+                binders=["(tr : Tr)", "(parent : RawVec)"], fuel=fuel, tyalias={"Self::Item": ("T", [U, U])})
+
+
+GROUPS[-1][2].extend([
+    one_iter("next", r"impl<'a, T: Transformation \+ \?Sized> Iterator for OneIter<'a, T>", ["parent.data.size + 1"]),
+    one_iter("nth", r"impl<'a, T: Transformation \+ \?Sized> Iterator for OneIter<'a, T>", ["parent.data.size + 1"]),
+    one_iter("size_hint", r"impl<'a, T: Transformation \+ \?Sized> Iterator for OneIter<'a, T>", [], mut=False),
+    one_iter("next_back", r"impl<'a, T: Transformation \+ \?Sized> DoubleEndedIterator for OneIter<'a, T>", ["parent.data.size + 1"]),
+])
+
+
 def generate_fn_files(read, consts_by_file):
     """read(rel) -> source text; consts_by_file: {rel: {NAME: int}} (module / associated constants visible in that file)"""
     files = {}
@@ -257,7 +455,8 @@ def generate_fn_files(read, consts_by_file):
         for cfg in fns:
             try:
                 parts.append("/-- `%s` of %s, translated from the source -/\n" % (cfg["fn"], cfg["file"])
-                             + translate(read(cfg["file"]), cfg, CALLS, consts_by_file.get(cfg["file"], {}), STRUCTS))
+                             + translate(read(cfg["file"]), cfg, CALLS, consts_by_file.get(cfg["file"], {}),
+                                         dict(STRUCTS, **cfg.get("structs_over", {}))))
             except Unsupported as e:
                 raise Unsupported("%s::%s: %s" % (cfg["file"], cfg["fn"], e))
         files[fname] = ("-- GENERATED by tools/gen_lean.py (tools/rs2lean.py) from /repo/src — do not edit.\n"
